@@ -37,7 +37,8 @@ fuzz_target!(|data: &[u8]| {
         lines.push((line, bus));
     }
     let interrupt_every = if u.int_in_range(0..=3u8).unwrap_or(0) == 0 { Some(u.int_in_range(2..=8u8).unwrap_or(2)) } else { None };
-    let case = BridgeSession { lines, interrupt_every };
+    let write_fails_at_reply = if u.int_in_range(0..=4u8).unwrap_or(1) == 0 { Some(u.int_in_range(0..=2u8).unwrap_or(0)) } else { None };
+    let case = BridgeSession { lines, interrupt_every, write_fails_at_reply };
     let mut st = Stats::new();
     if let Err(m) = check_bridge_session(&case, &mut st) {
         common::violation("C17", "bridge-session", serde_json::to_value(&case).unwrap(), m);
